@@ -1174,7 +1174,7 @@ def run(ck):
     tb = c02_tables.build(ck, b)
     ck.log("EncodingData opcode constants: %d dumped, %d compared with their database rows (%s not covered, %d without supported rows)" % (
         tb["dumped"], tb["entries"], sum(tb["classes_not_covered"].values()), tb["without_supported_rows"]))
-    regen = regen_own(ck, {"IsaA64Db.v": b["coq"], "A64Tables.v": tb["coq"]}, ["IsaA64Db.v", "A64Tables.v"])
+    regen = regen_own(ck, {"IsaA64Db.v": b["coq"], "A64Tables.v": tb["coq"], "IsaA64Disjoint.v": b["coq_disjoint"]}, ["IsaA64Db.v", "A64Tables.v", "IsaA64Disjoint.v"])
     gen_dir, regen_failed, rlog = None, [], ""
     if regen is not None:
         gen_dir, regen_failed, rlog = regen
@@ -1182,6 +1182,7 @@ def run(ck):
     # ---------------- S2 theorems
     obl = ck.coq_properties(gen_dir=gen_dir)
     obl += ck.coq_properties(module="Properties_C02_tables", gen_dir=gen_dir)
+    obl += ck.coq_properties(module="Properties_C02_disjoint", gen_dir=gen_dir)
     ck.log("theorems: %d, failed: %d" % (len(obl), len([o for o in obl if not o["ok"]])))
     # ---------------- S3 executables
     impl = ck.build_harness("c02", ["c02_harness.cpp"])
@@ -1233,6 +1234,17 @@ def run(ck):
         else:
             ck.violation(o["key"], o["why"], {"db_row": k, "excluded": True})
     ck.log("re-validated %d excluded DB rows: %d still disagree, %d stale, %d not examinable" % (len(b["excluded"]), len(still), len(stale), len(b["excluded"]) - len(seen)))
+    # rows of DIFFERENT mnemonics that no fixed bit separates must be reviewed aliases (corpus/C02/overlap_mnemonic_pairs.txt)
+    pth = os.path.join(vlib.VERIF, "corpus", "C02", "overlap_mnemonic_pairs.txt")
+    known_pairs = {ln.strip() for ln in open(pth) if ln.strip() and not ln.startswith("#")} if os.path.exists(pth) else None
+    if known_pairs is not None:
+        inst_of = {e["row"]["idx"]: e["row"]["inst"] for e in b["sup"]}
+        for p in b["overlap"]:
+            k = "%s/%s" % tuple(sorted((p[3], p[4])))
+            if p[2] != 0 and k not in known_pairs:
+                ck.violation("C02/unrecorded-row-overlap/" + k, "database rows `%s` and `%s` (different mnemonics) admit the same words: no fixed bit separates them and the "
+                             "pair is not a reviewed alias of corpus/C02/overlap_mnemonic_pairs.txt" % (inst_of[p[0]], inst_of[p[1]]),
+                             {"db_rows": [inst_of[p[0]], inst_of[p[1]]], "broken": "db/isa_aarch64.json or the alias list"}, no_input=True)
     for o in ck.proof_failures():
         ck.violation("C02/proof/" + o["name"], "theorem %s no longer checks (%s)" % (o["name"], getattr(ck, "coq_log", "")[-800:]),
                      {"broken": "theorem " + o["name"], "file": "coq/theories/Properties/Properties_C02*.v"}, no_input=True)
@@ -1268,6 +1280,9 @@ def run(ck):
         "encoding_tables": {"table_words_dumped": tb["dumped"], "entries_compared_with_db_rows": tb["entries"], "instructions_covered": tb["instructions_covered"],
                             "instructions_total": 774, "classes_not_covered": tb["classes_not_covered"],
                             "without_supported_rows": tb["without_supported_rows"]},
+        "rows_disjoint": {"row_pairs": len(b["sup"]) * (len(b["sup"]) - 1) // 2, "pairs_not_separated_by_fixed_bits": len(b["overlap"]),
+                          "same_mnemonic": len([p for p in b["overlap"] if p[2] == 0]), "db_aliasOf": len([p for p in b["overlap"] if p[2] == 1]),
+                          "other_mnemonic_pairs": sorted({"%s/%s" % tuple(sorted((p[3], p[4]))) for p in b["overlap"] if p[2] == 2})},
         "db_overrides_applied": [o["key"] for o in b["applied"]], "db_rows_excluded_as_defective": len(b["excluded"]),
         "db_exclusions_revalidated": {"still_disagree": len(still), "stale": len(stale), "not_examinable": len(b["excluded"]) - len(seen)},
         "traces_validated_against_impl": J.ncases, "model_vs_impl_disagreements": J.ncases - stats["agree"] - stats["out_of_scope_shape"],
